@@ -44,7 +44,8 @@ def explore_order(job):
     out = {'name': job['name'], 'family': job['family'], 'mode': job['mode'], 'nodes': job['nodes'], 'edges': job['edges']}
     try:
         st, viols = order.run_instance(_MOD, [tuple(n) for n in job['nodes']], [tuple(e) for e in job['edges']], job['mode'],
-                                       job.get('tier', 'quick'), job.get('seed', 0), deadline=job.get('deadline'))
+                                       job.get('tier', 'quick'), job.get('seed', 0), deadline=job.get('deadline'),
+                                       built=job.get('hist') == 'built')
         groups = {}
         for v in viols:
             gk = group_key('C14', v['what'])
@@ -73,10 +74,11 @@ def explore_chain(job):
         if job['family'] == 'H-IND':
             from . import ind
             st, viols = ind.run_c01_instance(_MOD, [tuple(n) for n in job['nodes']], [tuple(e) for e in job['edges']], job['mode'],
-                                             deadline=job.get('deadline'), stale=job.get('stale', ()))
+                                             deadline=job.get('deadline'), stale=job.get('stale', ()), built=job.get('hist') == 'built')
         else:
             fn = chain.run_reeval_instance if job['family'] == 'H-EVAL2' else chain.run_resume_instance
-            st, viols = fn(_MOD, [tuple(n) for n in job['nodes']], [tuple(e) for e in job['edges']], job['mode'], deadline=job.get('deadline'))
+            st, viols = fn(_MOD, [tuple(n) for n in job['nodes']], [tuple(e) for e in job['edges']], job['mode'], deadline=job.get('deadline'),
+                           built=job.get('hist') == 'built')
         groups = {}
         for v in viols:
             gk = group_key(v['prop'], v['what'])
@@ -98,8 +100,37 @@ def explore_chain(job):
     return out
 
 
+def explore_size(job):
+    from . import size
+    t0 = time.time()
+    out = {'name': job['name'], 'family': job['family'], 'mode': 'ident', 'nodes': [], 'edges': []}
+    try:
+        n = job['n']
+        st, viols = size.run_instance(_MOD, job['shape'], tuple(n) if isinstance(n, list) else n, tuple(job['pattern']), deadline=job.get('deadline'))
+        groups = {}
+        for v in viols:
+            gk = group_key('C19', v['what'])
+            g = groups.setdefault(gk, {'prop': 'C19', 'count': 0, 'examples': []})
+            g['count'] += 1
+            v['universe'] = job['name']
+            if len(g['examples']) < 2:
+                g['examples'].append(v)
+        out.update({'ok': True, 'states': st['states'], 'transitions': st['transitions'], 'events': st['events'], 'forks': 0,
+                    'finals': st['finals'], 'capped': st['capped'], 'solver': st['solver'], 'by_eval': 0,
+                    'obligations': st['obligations'], 'discharged': st['discharged'], 'groups': groups, 'samples': [],
+                    'mir_blocks': rt.STEPS.total, 'wall': time.time() - t0,
+                    'mon_stats': {'evaluations': st['evaluations'], 'jobs_in_largest_graph': st['jobs']}})
+    except rt.Unsupported as e:
+        out.update({'ok': False, 'error': 'unsupported: %s' % str(e)[:300], 'trace': traceback.format_exc()[-1500:]})
+    except Exception as e:
+        out.update({'ok': False, 'error': '%s: %s' % (type(e).__name__, str(e)[:300]), 'trace': traceback.format_exc()[-1500:]})
+    return out
+
+
 def explore_universe(job):
     """worker: job = dict(family, nodes, edges, mode, name, deadline, opts)"""
+    if job['family'] == 'H-SIZE':
+        return explore_size(job)
     if job['family'] == 'H-ORDER':
         return explore_order(job)
     if job['family'] in ('H-EVAL2', 'H-RESUME', 'H-IND'):
@@ -107,8 +138,8 @@ def explore_universe(job):
     t0 = time.time()
     out = {'name': job['name'], 'family': job['family'], 'mode': job['mode'], 'nodes': job['nodes'], 'edges': job['edges']}
     try:
-        uni = H.heval_universe(_MOD, [tuple(n) for n in job['nodes']], [tuple(e) for e in job['edges']], job['mode'],
-                               name=job['name'], stale=job.get('stale', ()), inputs=job.get('inputs'))
+        uni = H.make_universe(_MOD, [tuple(n) for n in job['nodes']], [tuple(e) for e in job['edges']], job['mode'],
+                              name=job['name'], stale=job.get('stale', ()), inputs=job.get('inputs'), built=job.get('hist') == 'built')
         mons = make_monitors(job['family'])
         ex = X.Explorer(uni, mons, max_states=job.get('max_states', 400000))
         ex.run(deadline=job.get('deadline'))
@@ -138,7 +169,7 @@ def explore_universe(job):
                     'solver': ex.z.stats.to_json(), 'by_eval': ex.z.by_eval,
                     'obligations': sum(m.obligations for m in om), 'discharged': sum(m.discharged for m in om),
                     'groups': groups, 'samples': samples, 'mir_blocks': rt.STEPS.total, 'wall': time.time() - t0,
-                    'mon_stats': mon_stats(mons)})
+                    'mon_stats': dict(mon_stats(mons), state_writes_checked=getattr(ex, 'n_state_writes', 0))})
     except rt.Unsupported as e:
         out.update({'ok': False, 'error': 'unsupported: %s' % str(e)[:300], 'trace': traceback.format_exc()[-1500:]})
     except Exception as e:
@@ -157,6 +188,65 @@ CURATED4 = [
     ([('A', 'Always'), ('B', 'Ephemeral'), ('C', 'Output'), ('D', 'Output')], [('B', 'A'), ('C', 'B'), ('D', 'B')]),
     ([('A', 'Ephemeral'), ('B', 'Ephemeral'), ('C', 'Output'), ('D', 'Output')], [('B', 'A'), ('C', 'B'), ('D', 'A')]),
 ]
+
+
+# larger shapes (5-7 jobs), explored from a completely built project (H-BUILT): the situations in which defects were found
+# that need more jobs than the complete enumerations reach (late requirement of an Ephemeral several levels up, failure
+# reaching a delayed Ephemeral through a validly skipped Output, ...)
+CURATED_L = [
+    ([('W', 'Ephemeral'), ('X', 'Output'), ('E', 'Ephemeral'), ('D', 'Output'), ('A', 'Always'), ('Y', 'Output'), ('B', 'Always')],
+     [('X', 'W'), ('E', 'X'), ('D', 'E'), ('D', 'A'), ('Y', 'W'), ('Y', 'B')]),
+    ([('W', 'Ephemeral'), ('X', 'Output'), ('E', 'Ephemeral'), ('D', 'Output'), ('Y', 'Output'), ('B', 'Always')],
+     [('X', 'W'), ('E', 'X'), ('D', 'E'), ('D', 'Y'), ('Y', 'W'), ('Y', 'B')]),
+    ([('P', 'Ephemeral'), ('Q', 'Ephemeral'), ('R', 'Ephemeral'), ('A', 'Always'), ('X', 'Output'), ('S', 'Output')],
+     [('Q', 'P'), ('S', 'P'), ('R', 'Q'), ('X', 'R'), ('X', 'A')]),
+    ([('P', 'Ephemeral'), ('Q', 'Ephemeral'), ('A', 'Always'), ('F', 'Output'), ('X', 'Output'), ('Y', 'Output')],
+     [('Q', 'P'), ('X', 'Q'), ('X', 'A'), ('Y', 'Q'), ('Y', 'F')]),
+    ([('P', 'Ephemeral'), ('S', 'Output'), ('X', 'Output'), ('B', 'Always'), ('Y', 'Output'), ('A', 'Always')],
+     [('S', 'P'), ('X', 'S'), ('X', 'B'), ('Y', 'P'), ('Y', 'A')]),
+    ([('R', 'Output'), ('E', 'Ephemeral'), ('S', 'Output'), ('A', 'Always'), ('X', 'Always'), ('D', 'Always')],
+     [('S', 'R'), ('S', 'E'), ('A', 'E'), ('D', 'S'), ('D', 'X')]),
+    ([('E', 'Ephemeral'), ('S', 'Output'), ('A', 'Always'), ('X', 'Always'), ('D', 'Always'), ('G', 'Always')],
+     [('S', 'E'), ('A', 'E'), ('D', 'S'), ('G', 'D'), ('G', 'X')]),
+    ([('S', 'Output'), ('X', 'Ephemeral'), ('E', 'Ephemeral'), ('B', 'Output'), ('R', 'Output')],
+     [('E', 'S'), ('E', 'X'), ('B', 'S'), ('B', 'E'), ('R', 'E')]),
+    ([('E', 'Ephemeral'), ('B', 'Output'), ('D', 'Output'), ('A', 'Always'), ('C', 'Output')],
+     [('B', 'E'), ('D', 'E'), ('D', 'A'), ('C', 'B')]),
+    ([('A', 'Always'), ('T', 'Ephemeral'), ('B', 'Output'), ('D', 'Output')], [('B', 'A'), ('D', 'A'), ('B', 'T'), ('D', 'B')]),
+    ([('T', 'Ephemeral'), ('B', 'Output'), ('C', 'Output'), ('X', 'Always')], [('B', 'T'), ('C', 'T'), ('C', 'X')]),
+    ([('A', 'Always'), ('P', 'Ephemeral'), ('Q', 'Ephemeral'), ('X', 'Output'), ('Y', 'Output')], [('P', 'A'), ('Q', 'P'), ('X', 'Q'), ('Y', 'P')]),
+]
+
+
+def built_jobs(family, tier, seed, n4=0, chain=0, chain_max=6, rand=0, modes=('ident',), curated=True):
+    """H-BUILT universes: curated large shapes, plus seeded samples (quick) or complete enumerations (thorough) of
+    all 4-job graphs, the chain family and random 5-7 job graphs"""
+    rng = random.Random(1000003 * seed + 17)
+    jobs = []
+    def add(nodes, edges, tag):
+        for mode in modes:
+            jobs.append({'family': family, 'nodes': nodes, 'edges': edges, 'mode': mode, 'hist': 'built', 'tag': tag})
+    if curated:
+        for nodes, edges in CURATED_L:
+            add(nodes, edges, 'L')
+    inst4 = list(H.all_instances(4))
+    if n4 < 0 or n4 >= len(inst4):
+        sel = inst4
+    else:
+        sel = rng.sample(inst4, n4)
+    for nodes, edges in sel:
+        add(nodes, edges, 'n4')
+    fam = H.chain_family(chain_max)
+    if chain < 0 or chain >= len(fam):
+        sel = fam
+    else:
+        sel = rng.sample(fam, chain)
+    for nodes, edges in sel:
+        add(nodes, edges, 'ch')
+    for i in range(rand):
+        nodes, edges = H.random_instance(rng, rng.choice([5, 6, 6, 7]))
+        add(nodes, edges, 'rnd')
+    return jobs
 
 
 HIST_CASES = [
@@ -195,6 +285,25 @@ def universes(family, tier, seed):
             jobs.append({'family': 'H-HIST', 'nodes': nodes, 'edges': edges, 'mode': 'prod', 'stale': stale, 'inputs': inputs})
         for i, j in enumerate(jobs):
             j['name'] = 'h%d_%s_%s' % (i, j['mode'], '+'.join(n for n, _ in j['nodes']))
+        return jobs
+    if family == 'H-SIZE':
+        K = {'A': 'Always', 'O': 'Output', 'E': 'Ephemeral'}
+        jobs = []
+        import itertools as _it
+        for pat in _it.product('AOE', repeat=3):
+            for shape, n in (('chain', 8), ('layers', [3, 3]), ('fan', 8)):
+                jobs.append({'family': family, 'shape': shape, 'n': n, 'pattern': [K[c] for c in pat]})
+        big = [('chain', 600, ['OOO', 'EEO', 'AOE', 'OEE', 'EOA']), ('layers', [20, 30], ['OOO', 'EOE', 'AEO']),
+               ('fan', 600, ['OOO', 'AEO', 'EEO', 'OEO'])]
+        if tier == 'thorough':
+            big += [('chain', 4000, ['OOO', 'EEO', 'AOE']), ('layers', [40, 100], ['OOO', 'EOE']), ('fan', 4000, ['OOO', 'AEO']),
+                    ('chain', 1500, ['OEE', 'EOA', 'AEO', 'OEO']), ('layers', [100, 12], ['OEO', 'AOE'])]
+        for shape, n, pats in big:
+            for pat in pats:
+                jobs.append({'family': family, 'shape': shape, 'n': n, 'pattern': [K[c] for c in pat]})
+        for i, j in enumerate(jobs):
+            j['name'] = 'size%d_%s_%s_%s' % (i, j['shape'], j['n'], ''.join(k[0] for k in j['pattern']))
+        jobs.sort(key=lambda j: -(j['n'] if isinstance(j['n'], int) else j['n'][0] * j['n'][1]))
         return jobs
     if family == 'H-IND':
         jobs = []
@@ -247,8 +356,14 @@ def universes(family, tier, seed):
     for nodes, edges in CURATED4:
         for mode in (['ident', 'rel'] if tier == 'thorough' else ['ident']):
             jobs.append({'family': 'H-EVAL', 'nodes': nodes, 'edges': edges, 'mode': mode, 'max_states': 150000})
+    if tier == 'thorough':
+        jobs += built_jobs('H-EVAL', tier, seed, n4=-1, chain=-1, chain_max=6, rand=300, modes=('ident',))
+        jobs += built_jobs('H-EVAL', tier, seed, n4=600, chain=300, chain_max=6, rand=0, modes=('rel',))
+    else:
+        jobs += built_jobs('H-EVAL', tier, seed, n4=250, chain=100, chain_max=6, rand=0, modes=('ident',))
+        jobs += built_jobs('H-EVAL', tier, seed, n4=60, chain=20, chain_max=6, rand=0, modes=('rel',), curated=False)
     for i, j in enumerate(jobs):
-        j['name'] = 'u%d_%s_%s' % (i, j['mode'], ''.join(k[0] for _, k in j['nodes']) + '_' + ''.join('%s%s' % (u, d) for d, u in j['edges']))
+        j['name'] = 'u%d_%s%s_%s' % (i, 'B' if j.get('hist') == 'built' else '', j['mode'], ''.join(k[0] for _, k in j['nodes']) + '_' + ''.join('%s%s' % (u, d) for d, u in j['edges']))
     rng = random.Random(seed)
     rng.shuffle(jobs)
     # big ones first for load balance
@@ -316,7 +431,7 @@ def run(family, tier, seed, log=sys.stderr, wall_cap=None, nproc=16):
                         e['mode'] = r['mode']
                     G['universes'] += 1
                     G['examples'].extend(g['examples'])
-                    G['examples'].sort(key=lambda e: (len(e['scenario']['nodes']), e['depth']))
+                    G['examples'].sort(key=lambda e: (len((e.get('scenario') or {}).get('nodes', ())), e['depth']))
                     del G['examples'][3:]
                 if len(agg['samples']) < 6:
                     agg['samples'].extend(r['samples'])
